@@ -159,6 +159,16 @@ def einsum_family(tier):
         for dtt in dts:
             ops = [ph("abc"[i], s, dtt[i]) for i, s in enumerate(shapes)]
             yield "einsum", ["einsum", spec, *ops]
+    # unit-axis broadcasting: each single occurrence of a repeated letter gets length 1 in turn
+    for spec, shapes in EINSUM_SPECS:
+        ins = spec.split("->")[0].split(",")
+        occ = [(i, j) for i, sub in enumerate(ins) for j, c in enumerate(sub)
+               if sum(x.count(c) for x in ins) >= 2 and shapes[i][j] > 1]
+        for (i, j) in occ:
+            shp = [list(x) for x in shapes]
+            shp[i][j] = 1
+            ops = [ph("abc"[n], tuple(x), "float64") for n, x in enumerate(shp)]
+            yield "einsum", ["einsum", spec, *ops]
     mm = [((2, 3), (3, 2)), ((3,), (3,)), ((2, 3), (3,)), ((3,), (3, 2)), ((2, 2, 3), (3, 2)),
           ((2, 2, 3), (2, 3, 2)), ((2, 3), (2, 3, 2)), ((2, 1, 2, 3), (3, 3, 2)), ((2, 0), (0, 3))]
     for s1, s2 in mm:
@@ -284,7 +294,8 @@ def reshapes_of(size, maxnd):
 SLICES_REP = [["s", None, None, None], ["s", 1, None, None], ["s", None, -1, None],
               ["s", None, None, -1], ["s", None, None, 2], ["s", -2, None, None],
               ["s", 2, 0, -1], ["s", 1, 1, None], ["s", None, None, -2], ["s", 0, 5, 3],
-              ["s", -1, None, -2], ["s", 5, None, None]]
+              ["s", -1, None, -2], ["s", 5, None, None], ["s", 5, None, -1], ["s", 9, 1, -2],
+              ["s", -9, None, -1], ["s", None, -9, -1]]
 
 
 def index_family(tier):
